@@ -258,7 +258,7 @@ class Quote(BlockToken):
                 and not any(token_type.check_interrupts_paragraph(lines) for token_type in breaking_tokens)):
             stripped = cls.convert_leading_tabs(next_line.lstrip())
             prepend = 0
-            if stripped[0] == '>':
+            if cls.start(next_line):
                 # has leader, not lazy continuation
                 prepend += 1
                 if stripped[1] == ' ':
